@@ -60,7 +60,10 @@ impl<'a, 'b> GeneratorState<'a> {
                         self.local_label_counter_if += 1;
                         let ifend_label = format!(".ifend{}", self.local_label_counter_if);
                         let else_label = format!(".else{}", self.local_label_counter_if);
+                        // The accumulator is saved on the stack: the condition must not save it again
+                        self.acc_in_use = false;
                         self.generate_condition(condition, pos, true, &else_label, false)?;
+                        self.acc_in_use = false;
                         let saved_y = self.saved_y;
                         let left = self.generate_expr(lhs, pos, high_byte, false)?;
                         let la = self.generate_assign(&ExprType::A(false), &left, pos, high_byte)?;
@@ -75,6 +78,7 @@ impl<'a, 'b> GeneratorState<'a> {
                         self.asm(STA, &ExprType::Tmp(false), pos, false)?;
                         self.tmp_in_use = true;
                         self.sasm(PLA)?;
+                        self.acc_in_use = true;
                         if la != ra {
                             return Err(self.compiler_state.syntax_error(
                                 "Different alternative types in ?: expression",
@@ -145,6 +149,8 @@ impl<'a, 'b> GeneratorState<'a> {
             self.local_label_counter_if += 1;
             let ifend_label = format!(".ifend{}", self.local_label_counter_if);
             let else_label = format!(".else{}", self.local_label_counter_if);
+            // The accumulator is saved on the stack: the condition must not save it again
+            self.acc_in_use = false;
             self.generate_condition(expr, pos, false, &else_label, false)?;
             self.asm(LDA, &ExprType::Immediate(0), pos, false)?;
             self.asm(JMP, &ExprType::Label(ifend_label.clone()), pos, false)?;
@@ -154,6 +160,7 @@ impl<'a, 'b> GeneratorState<'a> {
             self.asm(STA, &ExprType::Tmp(false), pos, false)?;
             self.tmp_in_use = true;
             self.sasm(PLA)?;
+            self.acc_in_use = true;
             Ok(ExprType::Tmp(false))
         } else {
             self.local_label_counter_if += 1;
